@@ -15,6 +15,7 @@ import (
 
 	"pgregory.net/rapid"
 
+	"github.com/TheManticoreProject/Manticore/logger"
 	"github.com/TheManticoreProject/Manticore/network/llmnr"
 
 	"manticoreverif/vf"
@@ -46,7 +47,20 @@ type obs struct {
 	qAfter           bool
 	preOK            bool
 	serverStillAlive bool
+	neverSent        []string // replies carrying a transaction id that was never sent to the server
 }
+
+// RFC 1002 4.2.1.1 assigns a request handler to these opcodes
+var assigned = map[int]bool{0: true, 5: true, 6: true, 8: true}
+
+// A server may stay silent on a request with an unassigned opcode. The probe does not wait for a reply
+// that need not come: a plain query sent right behind the request is the barrier; once that is answered
+// the reply to the request gets a short grace (the UDP servers handle datagrams concurrently, so it may
+// come after the barrier's), and the grace periods of a whole run are bounded. Silence is accepted
+// either way; a reply that comes later is still seen by the reads that follow and judged.
+const graceWait = 30 * time.Millisecond
+
+var graceLeft = time.Duration(vf.Size(60, 240)) * time.Second
 
 func resolvable(c *client, id uint16, name string, ip net.IP) bool {
 	p, ok := c.exchange(req{ID: id, Opcode: 0, QName: name}, replyWait)
@@ -85,14 +99,38 @@ func probe(kind string, opcode int, bcast bool, nm uint16, preRegisterR bool, in
 		return o, nil
 	}
 	o.rBefore = resolvable(c, 120, "RNAME", ipB)
-	p, ok := c.exchange(req{ID: 0x4242, Opcode: opcode, Bcast: bcast, NM: nm, QName: "QNAME", RRName: "RNAME", RRIP: ipB, InAddl: inAddl}, replyWait)
+	pr := req{ID: 0x4242, Opcode: opcode, Bcast: bcast, NM: nm, QName: "QNAME", RRName: "RNAME", RRIP: ipB, InAddl: inAddl}
+	var p resp
+	var ok bool
+	var old *client
+	if assigned[opcode] {
+		p, ok = c.exchange(pr, replyWait)
+	} else {
+		c.send(pr.bytes(), nil)
+		barrier := resolvable(c, 0x4243, "QNAME", ipA)
+		if p, ok = c.seen[pr.ID]; !ok && barrier && graceLeft > 0 {
+			t0 := time.Now()
+			p, ok = c.await(pr.ID, graceWait)
+			graceLeft -= time.Since(t0)
+		}
+		if !barrier && kind == "tcp" {
+			// the server may have closed the connection on the request: the scans below need a new one
+			if c3, err3 := dial(srv); err3 == nil {
+				defer c3.close()
+				old, c = c, c3
+			}
+		}
+	}
+	o.rAfter = resolvable(c, 130, "RNAME", ipB)
+	o.qAfter = resolvable(c, 140, "QNAME", ipA)
+	if !ok && old == nil {
+		p, ok = c.seen[pr.ID] // arrived during the scans
+	}
 	o.replied = ok
 	if ok {
 		o.rcode = p.Rcode
 		o.answersForQ = p.Answers > 0 && p.hasAddr(ipA)
 	}
-	o.rAfter = resolvable(c, 130, "RNAME", ipB)
-	o.qAfter = resolvable(c, 140, "QNAME", ipA)
 	// a packet with the response bit set must not take the server down. Whether the server answers such a packet
 	// or drops it silently is its own business, so no reply to it is waited for: a plain query sent after it on
 	// the same socket / connection is the barrier (once that is answered the server has consumed the packet; a
@@ -104,6 +142,7 @@ func probe(kind string, opcode int, bcast bool, nm uint16, preRegisterR bool, in
 		o.serverStillAlive = resolvable(c2, 150, "QNAME", ipA)
 		c2.close()
 	}
+	o.neverSent = append(o.neverSent, neverSent(old, c, c2)...)
 	return o, nil
 }
 
@@ -144,6 +183,9 @@ func checkOpcode(c opCase) []vf.Finding {
 		}
 		if !absent.serverStillAlive || !present.serverStillAlive {
 			return []vf.Finding{vf.F(subject, "server-dead-after-response-bit-packet", "no answer to a plain query after a packet with the response bit set")}
+		}
+		if ns := append(absent.neverSent, present.neverSent...); len(ns) > 0 {
+			return []vf.Finding{vf.F(subject, "response-with-transaction-id-never-sent", "probing opcode %d broadcast %v nm_flags %#04x (request id 0x4242, all other ids sent: 100..151, 0x4243, 0x5151, 0x5152): the server sent %s", c.Opcode, c.Bcast, c.NM, strings.Join(ns, ", "))}
 		}
 		last = [2]obs{absent, present}
 		for k, o := range last {
@@ -212,8 +254,9 @@ type burstCase struct {
 	PerConn int     `json:"requests_per_client"`
 	Stagger []int   `json:"stagger_us"`
 	Cuts    [][]int `json:"tcp_write_cuts"`
-	QPer    int     `json:"questions_per_request,omitempty"`    // 0 = 1; several questions make requests and responses exceed 255 bytes
-	Private int     `json:"private_names_per_client,omitempty"` // names each client registers, refreshes and (odd ones) releases during the burst
+	PauseUS int     `json:"tcp_pause_between_segments_us,omitempty"` // 0: the writer only yields the processor between segments
+	QPer    int     `json:"questions_per_request,omitempty"`         // 0 = 1; several questions make requests and responses exceed 255 bytes
+	Private int     `json:"private_names_per_client,omitempty"`      // names each client registers, refreshes and (odd ones) releases during the burst
 }
 
 func (c burstCase) qper() int {
@@ -335,6 +378,7 @@ func checkBurst(c burstCase) []vf.Finding {
 		if clients[i], err = dial(srv); err != nil {
 			return []vf.Finding{vf.F("harness", "cannot-dial", "%v", err)}
 		}
+		clients[i].pause = time.Duration(c.PauseUS) * time.Microsecond
 		defer clients[i].close()
 	}
 	// ids: 0x2000 + client*64 + slot; slots 0..7 queries, 8.. registrations, 16.. refreshes, 24.. releases, 32.. queries of private names
@@ -397,6 +441,9 @@ func checkBurst(c burstCase) []vf.Finding {
 	close(start)
 	wg.Wait()
 	var fs []vf.Finding
+	if ns := neverSent(append([]*client{setup}, clients...)...); len(ns) > 0 {
+		fs = append(fs, vf.F(c.Kind, "response-with-transaction-id-never-sent", "the server sent %s; no request with such an id was sent to it", strings.Join(ns, ", ")))
+	}
 	for i, sc := range scripts {
 		for _, id := range sc.foreign {
 			fs = append(fs, vf.F(c.Kind, "response-with-foreign-transaction-id", "client %d received id %#x (more often than it sent it)", i, id))
@@ -477,6 +524,9 @@ func checkBurst(c burstCase) []vf.Finding {
 					}
 				}
 			}
+			if ns := neverSent(tail); len(ns) > 0 {
+				fs = append(fs, vf.F(c.Kind, "response-with-transaction-id-never-sent", "final scan: the server sent %s; no request with such an id was sent to it", strings.Join(ns, ", ")))
+			}
 			tail.close()
 		}
 	}
@@ -495,8 +545,16 @@ func genBurst(t *rapid.T, kind string) burstCase {
 		maxQ = 40
 		c.N = rapid.IntRange(2, 6).Draw(t, "conns")
 		c.PerConn = rapid.IntRange(1, 4).Draw(t, "perConn")
+		// how the 2-byte length prefix and the message are cut into segments: one pattern always splits the
+		// length prefix itself (cut at offset 1), the others are drawn (possibly none: one write)
+		c.Cuts = append(c.Cuts, append([]int{1}, rapid.SliceOfN(rapid.OneOf(rapid.IntRange(2, 60), rapid.IntRange(2, 2000)), 0, 3).Draw(t, "cuts1")...))
 		for i, n := 0, rapid.IntRange(0, 3).Draw(t, "ncuts"); i < n; i++ {
 			c.Cuts = append(c.Cuts, rapid.SliceOfN(rapid.OneOf(rapid.IntRange(0, 60), rapid.IntRange(0, 2000)), 0, 4).Draw(t, "cuts"))
+		}
+		// two cases in three really pause between the segments (1-2 ms: the peer has read a segment before the next
+		// one is written); otherwise the writer only yields the processor and the segments may coalesce
+		if rapid.IntRange(0, 2).Draw(t, "pause") > 0 {
+			c.PauseUS = rapid.IntRange(1000, 2000).Draw(t, "pauseUS")
 		}
 	}
 	c.Stagger = rapid.SliceOfN(rapid.IntRange(0, 300), 1, 4).Draw(t, "stagger")
@@ -549,6 +607,15 @@ type llmnrCase struct {
 	N       int   `json:"clients"`
 	Stagger []int `json:"stagger_us"`
 	CloseAt int   `json:"close_after_clients"` // -1: after the burst
+	Debug   bool  `json:"debug,omitempty"`     // SetDebug(true): Serve logs every datagram through the library's logger, and so does the handler
+	Servers int   `json:"servers,omitempty"`   // 0 = 1; with 2, client i talks to server i%2 (two serve loops in one process)
+}
+
+func (c llmnrCase) servers() int {
+	if c.Servers < 1 {
+		return 1
+	}
+	return c.Servers
 }
 
 func llName(i int) string { return fmt.Sprintf("host-%03d.test", i) }
@@ -566,6 +633,9 @@ func checkLLMNRServer(c llmnrCase) []vf.Finding {
 // runLLMNRServer is the case without the goroutine accounting around it.
 func runLLMNRServer(c llmnrCase) []vf.Finding {
 	handler := llmnr.HandlerFunc(func(s *llmnr.Server, remote net.Addr, w llmnr.ResponseWriter, m *llmnr.Message) bool {
+		if s.Debug {
+			logger.Debug(fmt.Sprintf("answering %s", remote))
+		}
 		r := llmnr.CreateResponseFromMessage(m)
 		for _, q := range m.Questions {
 			var idx int
@@ -575,19 +645,30 @@ func runLLMNRServer(c llmnrCase) []vf.Finding {
 		w.WriteMessage(r)
 		return true
 	})
-	srv, err := llmnr.NewServer("udp4", []llmnr.Handler{handler})
-	if err != nil {
-		return []vf.Finding{vf.F("harness", "cannot-create-llmnr-server", "%v", err)}
+	type instance struct {
+		srv    *llmnr.Server
+		to     *net.UDPAddr
+		served chan error
 	}
-	conn, err := net.ListenUDP("udp4", &net.UDPAddr{IP: net.IPv4(127, 0, 0, 1)})
-	if err != nil {
-		return []vf.Finding{vf.F("harness", "cannot-listen", "%v", err)}
+	var insts []*instance
+	for k := 0; k < c.servers(); k++ {
+		srv, err := llmnr.NewServer("udp4", []llmnr.Handler{handler})
+		if err != nil {
+			return []vf.Finding{vf.F("harness", "cannot-create-llmnr-server", "%v", err)}
+		}
+		conn, err := net.ListenUDP("udp4", &net.UDPAddr{IP: net.IPv4(127, 0, 0, 1)})
+		if err != nil {
+			return []vf.Finding{vf.F("harness", "cannot-listen", "%v", err)}
+		}
+		srv.Conn = conn
+		srv.Address = conn.LocalAddr().(*net.UDPAddr)
+		if c.Debug {
+			srv.SetDebug(true)
+		}
+		in := &instance{srv: srv, to: conn.LocalAddr().(*net.UDPAddr), served: make(chan error, 1)}
+		insts = append(insts, in)
+		go func() { in.served <- in.srv.Serve() }()
 	}
-	srv.Conn = conn
-	srv.Address = conn.LocalAddr().(*net.UDPAddr)
-	served := make(chan error, 1)
-	go func() { served <- srv.Serve() }()
-	to := conn.LocalAddr().(*net.UDPAddr)
 	var fs []vf.Finding
 	var mu sync.Mutex
 	var wg sync.WaitGroup
@@ -596,6 +677,7 @@ func runLLMNRServer(c llmnrCase) []vf.Finding {
 		wg.Add(1)
 		go func(i int) {
 			defer wg.Done()
+			to := insts[i%len(insts)].to
 			sock, err := net.ListenUDP("udp4", &net.UDPAddr{IP: net.IPv4(127, 0, 0, 1)})
 			if err != nil {
 				return
@@ -643,14 +725,18 @@ func runLLMNRServer(c llmnrCase) []vf.Finding {
 	} else {
 		wg.Wait()
 	}
-	ok, took := within(stopBudget, func() { srv.Close() })
-	if !ok {
-		fs = append(fs, vf.F("llmnr.Server.Close", "close-does-not-return", "after %v", took))
+	for _, in := range insts {
+		ok, took := within(stopBudget, func() { in.srv.Close() })
+		if !ok {
+			fs = append(fs, vf.F("llmnr.Server.Close", "close-does-not-return", "after %v", took))
+		}
 	}
-	select {
-	case <-served:
-	case <-time.After(stopBudget):
-		fs = append(fs, vf.F("llmnr.Server.Serve", "serve-loop-does-not-exit-after-close", "still running %v after Close", stopBudget))
+	for _, in := range insts {
+		select {
+		case <-in.served:
+		case <-time.After(stopBudget):
+			fs = append(fs, vf.F("llmnr.Server.Serve", "serve-loop-does-not-exit-after-close", "still running %v after Close", stopBudget))
+		}
 	}
 	wg.Wait()
 	return fs
@@ -663,8 +749,22 @@ func TestLLMNRServerIsolation(t *testing.T) {
 		if rapid.IntRange(0, 3).Draw(t, "closeEarly") == 0 {
 			c.CloseAt = rapid.IntRange(0, 20).Draw(t, "closeAt")
 		}
+		// half of the cases with debug logging switched on, most of those with two servers in the process
+		if c.Debug = rapid.Bool().Draw(t, "debug"); c.Debug {
+			c.Servers = rapid.SampledFrom([]int{1, 2, 2, 2}).Draw(t, "servers")
+		} else {
+			c.Servers = rapid.SampledFrom([]int{1, 1, 1, 2}).Draw(t, "servers")
+		}
 		return c
-	}, checkLLMNRServer, func(c llmnrCase) bool { return c.N >= 2 })
+	}, func(c llmnrCase) []vf.Finding {
+		if c.Debug {
+			s.Class("debug-logging")
+		}
+		if c.servers() > 1 {
+			s.Class("two-servers")
+		}
+		return checkLLMNRServer(c)
+	}, func(c llmnrCase) bool { return c.N >= 2 })
 }
 
 // ---- LLMNR client: each response goes to the query with the matching id ---------------------------------------
